@@ -12,13 +12,17 @@ def gen_image(rng, n, arch=None, small_identity=False):
     fmt = pick(rng, fmts)
     arch = arch or pick(rng, pools.ARCHES + ["src"])
     unified = rng.random() < 0.2
+    path = "%s/%s/img-%d.%s" % (pick(rng, VARIANTS), arch, n, fmt)
+    if rng.random() < 0.12:
+        # names that differ from each other ONLY in one non-ASCII character (same length, same position)
+        path = "Server/iso/Fedora-%sdition.iso" % "\u00e9\u00fc\u00f6\u00e0\u00f1\u4e2d\u00e7\u00e5"[n % 8]
     img = {
-        "path": "%s/%s/img-%d.%s" % (pick(rng, VARIANTS), arch, n, fmt),
-        "mtime": rng.choice([0, 1410855216, 2 ** 31 + 5, 1]),
-        "size": rng.choice([1, 4603248640, 2 ** 40 + 7, 512]),
+        "path": path,
+        "mtime": pools.anyint(rng, [0, 1410855216, 2 ** 31 + 5, 1], big=0.06),
+        "size": pools.anyint(rng, [1, 4603248640, 2 ** 40 + 7, 512]),
         "volume_id": rng.choice([None, "Fedora 20 x86_64", "V" * 32, "ünï"]),
         "type": itype, "format": fmt, "arch": arch,
-        "disc_number": rng.choice([1, 1, 2, 3]), "disc_count": rng.choice([1, 3]),
+        "disc_number": rng.choice([1, 1, 2, 3, 10, 11]), "disc_count": rng.choice([1, 3, 12]),
         "checksums": dict((t, hexstr(rng, {"md5": 32, "sha1": 40, "sha256": 64, "sha512": 128}[t]))
                           for t in subset(rng, pools.CHECKSUM_TYPES, 1, 3)),
         "implant_md5": rng.choice([None, hexstr(rng, 32)]),
@@ -47,6 +51,10 @@ def gen_content(rng, max_images=8, unique=True):
             continue
         seen.add(key)
         K["imgs"].append(img)
+    if rng.random() < 0.1:
+        # a whole manifest of names that differ ONLY in one non-ASCII character (same length, same position)
+        for i, img in enumerate(K["imgs"][:8]):
+            img["path"] = "Server/iso/Fedora-%sdition.iso" % "\u00e9\u00fc\u00f6\u00e0\u00f1\u4e2d\u00e7\u00e5"[i]
     # the same content under a second name (hard link / copy): equal identity AND equal checksums, other path/mtime/size
     for i in range(len(K["imgs"])):
         if rng.random() < 0.15:
@@ -204,7 +212,7 @@ COMPOSE_POISON = [
     ("date", [None, 20150522, "2015", "2015052a"]),
     ("type", [None, "prod", "Production"]),
     ("respin", [None, "0", 1.5]),
-    ("label", ["GA", "Beta", "RC-1.0.1", 5]),
+    ("label", pools.LABELS_BAD),
 ]
 
 
